@@ -328,108 +328,29 @@ def run_fault_session_case(args):
 
 # ---------------------------------------------------------------- (b) kill inside a local-backend mutation
 def _local_child(root, op, name, payload, kill_at, chunk_size):
-    """Runs in a forked child: perform one Local operation, die at interposed step `kill_at`."""
+    """Runs in a forked child: perform one Local operation, die at file-system step `kill_at`.
+    Steps are taken below the adapter (mc.fsteps: every os/io call that touches the repository directory),
+    so they do not depend on how the adapter spells its file handling; a write is torn in two."""
     import io
-    import shutil
-    import tempfile
     import replicat.backends.local as L
+    from mc.fsteps import FSteps
 
     counter = {'n': 0}
 
-    def step(label):
+    def step(label, path):
         counter['n'] += 1
         if counter['n'] == kill_at:
             os._exit(77)
 
-    BasePath = type(Path())
-
-    class KFile:
-        def __init__(self, f):
-            self.f = f
-
-        def write(self, data):
-            step('before-write')
-            n = len(data)
-            for cut in sorted({1, n // 2, n - 1} - {0, n}):
-                pass
-            # torn write: part of the data reaches the file object, then the process dies
-            half = n // 2
-            if half:
-                self.f.write(data[:half])
-                step('torn-write')
-                self.f.write(data[half:])
-            else:
-                self.f.write(data)
-            step('after-write')
-            return n
-
-        def flush(self):
-            self.f.flush()
-            step('after-flush')
-
-        def __enter__(self):
-            return self
-
-        def __exit__(self, *a):
-            step('before-close')
-            self.f.close()
-            step('after-close')
-
-        def __getattr__(self, k):
-            return getattr(self.f, k)
-
-    class KPath(BasePath):
-        def mkdir(self, *a, **k):
-            step('before-mkdir')
-            r = super().mkdir(*a, **k)
-            step('after-mkdir')
-            return r
-
-        def write_bytes(self, data):
-            step('before-write_bytes')
-            with BasePath.open(self, 'wb') as f:
-                kf = KFile(f)
-                kf.write(data)
-                step('before-close')
-            step('after-write_bytes')
-            return len(data)
-
-        def open(self, mode='r', *a, **k):
-            f = super().open(mode, *a, **k)
-            if 'w' in mode:
-                step('after-open')
-                return KFile(f)
-            return f
-
-        def replace(self, target):
-            step('before-rename')
-            r = super().replace(target)
-            step('after-rename')
-            return r
-
-        def unlink(self, *a, **k):
-            step('before-unlink')
-            r = super().unlink(*a, **k)
-            step('after-unlink')
-            return r
-
-    def ktemp(*a, **k):
-        step('before-mktemp')
-        f = tempfile.NamedTemporaryFile(*a, **k)
-        step('after-mktemp')
-        return f
-
-    L.Path = KPath
-    if hasattr(L, 'NamedTemporaryFile'):
-        L.NamedTemporaryFile = ktemp
     be = L.Local(root)
-    if op == 'upload':
-        be.upload(name, payload)
-    elif op == 'upload_stream':
-        be.upload_stream(name, io.BytesIO(payload), len(payload), chunk_size)
-    elif op == 'delete':
-        be.delete(name)
-    os._exit(0 if counter['n'] < kill_at or kill_at == 0 else 0)
+    with FSteps(root, step, reads=False):
+        if op == 'upload':
+            be.upload(name, payload)
+        elif op == 'upload_stream':
+            be.upload_stream(name, io.BytesIO(payload), len(payload), chunk_size)
+        elif op == 'delete':
+            be.delete(name)
+    os._exit(0)
 
 
 def run_local_case(args):
@@ -538,112 +459,17 @@ def run_local_pair(params, prefix):
         if cur not in allowed and not bad:
             bad.append((label, None if cur is None else len(cur)))
 
-    def step(label):
+    def step(label, path=None):
         s_ = dsched.cur()
         observe('before ' + label)
-        if s_ is not None:
+        if s_ is not None and not s_.teardown and not s_.aborting:
             s_.point('fs:' + label)
 
-    class KW:
-        def __init__(self, f):
-            self.f = f
-
-        def write(self, data):
-            step('write')
-            half = len(data) // 2
-            self.f.write(data[:half])
-            self.f.flush()
-            step('write-2nd-half')
-            return self.f.write(data[half:]) + half
-
-        def __enter__(self):
-            return self
-
-        def __exit__(self, *a):
-            step('close')
-            self.f.close()
-
-        def __getattr__(self, k):
-            return getattr(self.f, k)
-
-    class KPath(BasePath):
-        def mkdir(self, *a, **k):
-            step('mkdir')
-            return super().mkdir(*a, **k)
-
-        def write_bytes(self, data):
-            step('open-w')
-            with BasePath.open(self, 'wb') as f:
-                KW(f).write(data)
-                step('close')
-            return len(data)
-
-        def open(self, mode='r', *a, **k):
-            if 'w' in mode:
-                step('open-w')
-                return KW(super().open(mode, *a, **k))
-            step('open-r')
-            return KR(super().open(mode, *a, **k))
-
-        def read_bytes(self):
-            step('open-r')
-            with BasePath.open(self, 'rb') as f:
-                step('read')
-                return f.read()
-
-        def stat(self, *a, **k):
-            step('stat')
-            return super().stat(*a, **k)
-
-        def replace(self, target):
-            step('rename')
-            return super().replace(target)
-
-        def unlink(self, *a, **k):
-            step('unlink')
-            return super().unlink(*a, **k)
-
-    class KR:
-        def __init__(self, f):
-            self.f = f
-
-        def read(self, *a):
-            step('read')
-            return self.f.read(*a)
-
-        def fileno(self):
-            return self.f.fileno()
-
-        def __enter__(self):
-            return self
-
-        def __exit__(self, *a):
-            self.f.close()
-
-        def __getattr__(self, k):
-            return getattr(self.f, k)
-
-    class KOs:
-        path = os.path
-
-        def __getattr__(self, k):
-            return getattr(os, k)
-
-        def fstat(self, fd):
-            step('fstat')
-            return os.fstat(fd)
-
-    def ktemp(*a, **k):
-        step('mktemp')
-        return tempfile.NamedTemporaryFile(*a, **k)
-
-    has_ntf = hasattr(L, 'NamedTemporaryFile')   # the adapter may create its temporaries differently
-    saved = (L.Path, getattr(L, 'NamedTemporaryFile', None))
-    saved_os = L.os
-    L.os = KOs()
-    L.Path = KPath
-    if has_ntf:
-        L.NamedTemporaryFile = ktemp
+    # every os/io call below the adapter that touches the repository directory is a scheduling point
+    # (mc.fsteps: independent of how the adapter spells its file handling; writes are torn in two)
+    from mc.fsteps import FSteps
+    fsteps = FSteps(root, step, reads=True)
+    fsteps.install()
     excs = {}
     reads = {}
     try:
@@ -680,10 +506,7 @@ def run_local_pair(params, prefix):
 
         x = dsched.run_one(lambda loop, s_: go(), prefix, horizon=3000)
     finally:
-        L.Path = saved[0]
-        L.os = saved_os
-        if has_ntf:
-            L.NamedTemporaryFile = saved[1]
+        fsteps.uninstall()
     observe('end')
     final = None
     try:
